@@ -763,3 +763,84 @@ def discr_variants(term, vals):
         else:
             names.append(table.get(v, str(v)))
     return t[1], names
+
+
+# ---------------------------------------------------------------- result / exit helpers
+
+def result_edges(body, call_block):
+    """How the Result/Option produced by the call in `call_block` is tested.
+
+    Returns {'ok': block, 'err': block, 'switch': block, 'via': 'match'|'?'} for the first switch
+    whose discriminant is that call's result (directly, through a named variable, or through the
+    `?` desugaring Try::branch), else None."""
+    def is_this_call(t):
+        t = strip_refs(t)
+        return t[0] in ("call", "await") and t[-1] == call_block or (t[0] == "await" and inner_call_block(t) == call_block)
+
+    def inner_call_block(t):
+        u = t[1]
+        while u[0] in ("ref", "deref"):
+            u = u[1]
+        return u[3] if u[0] == "call" else None
+
+    for bi in sorted(body.live_blocks()):
+        t = body.blocks[bi]["t"]
+        if t["k"] != "switch":
+            continue
+        term = body.switch_term(bi, expand_vars=True)
+        if term[0] != "discr":
+            continue
+        inner = strip_refs(term[1])
+        via = None
+        if inner[0] == "call" and inner[1].endswith("Try>::branch") and inner[2]:
+            arg = strip_refs(inner[2][0])
+            if is_this_call(arg):
+                via = "?"
+        elif is_this_call(inner):
+            via = "match"
+        if via is None:
+            continue
+        table = dict(term[3])
+        res = {"switch": bi, "via": via}
+        for v, tg in t["targets"]:
+            name = table.get(v)
+            if name in ("Ok", "Some", "Continue"):
+                res["ok"] = tg
+            elif name in ("Err", "None", "Break"):
+                res["err"] = tg
+        other = t["otherwise"]
+        if "ok" not in res and "err" in res:
+            res["ok"] = other
+        if "err" not in res and "ok" in res:
+            res["err"] = other
+        return res
+    return None
+
+
+def strip_refs(t):
+    while t[0] in ("ref", "deref", "cast"):
+        t = t[1]
+    return t
+
+
+def return_assignments(body):
+    """blocks that assign the return place: {'Ok': [...], 'Err': [...], 'residual': [...], 'other': [...]}"""
+    out = {"Ok": [], "Err": [], "residual": [], "other": [], "true": [], "false": []}
+    for bi in body.live_blocks():
+        bl = body.blocks[bi]
+        for st in bl["s"]:
+            if st["lhs"] == [0]:
+                rv = st["rv"]
+                if rv["r"] == "aggr" and rv.get("variant") in ("Ok", "Err"):
+                    out[rv["variant"]].append(bi)
+                elif rv["r"] == "use" and "k" in rv["o"] and rv["o"]["k"].get("v") in (True, False) and rv["o"]["k"].get("ty") == "bool":
+                    out["true" if rv["o"]["k"]["v"] else "false"].append(bi)
+                else:
+                    out["other"].append(bi)
+        t = bl["t"]
+        if t["k"] == "call" and t["dest"] == [0]:
+            if callee_name(t).endswith("from_residual"):
+                out["residual"].append(bi)
+            else:
+                out["other"].append(bi)
+    return out
